@@ -125,3 +125,16 @@ Theorem C02_linearization_program_order : forall progs sched,
   forall i, i < length progs -> calls_of i (s_order (exec true progs sched)) = nth i progs [].
 Proof. exact lin_program_order. Qed.
 Print Assumptions C02_linearization_program_order.
+
+(* ---------- the correlator of the model is the correlator of the source ----------
+   Gen/TrackerProg.v is REGENERATED on every run by translating sessiontracker.go (RemoteLogin,
+   AuditdEvent with both of its branches, the two cleanups, writeAndClearCache, the map operations
+   they perform, deferred deletes, early returns and error classes) into a small deep-embedded
+   language (Model/TrackerIR.v).  For EVERY state and EVERY operation the hand-written [tstep] of
+   Model/Tracker.v, on which the theorems of this file rest, IS the interpretation of the generated
+   programs, and that interpretation never gets stuck. *)
+From AM Require Model.TrackerIR Gen.TrackerProg Proofs.TrackerIRTie.
+Theorem C02_tracker_from_source : forall st o,
+  Proofs.TrackerIRTie.run_generated st o = Some (Model.Tracker.tstep st o).
+Proof. exact Proofs.TrackerIRTie.tracker_from_source. Qed.
+Print Assumptions C02_tracker_from_source.
